@@ -60,7 +60,7 @@ RECORDS = [{'ok': True, 'grade_decimal': 1, 'msg': ''}, {'ok': 'partial', 'grade
 
 
 def d1_validation_on_credit(ctx, idx):
-    r = ctx.rule('D1.MPT', 'post_eval_validation has run on every path that returns a credited verdict', floor=8)
+    r = ctx.rule('D1.MPT', 'post_eval_validation has run on every path that returns a credited verdict', floor=6)
     with r:
         fi = idx.func(MM + '.check_math_response')
         C = 'MathMixin.check_math_response'
@@ -81,6 +81,8 @@ def d1_validation_on_credit(ctx, idx):
             return
         # path analysis: keep res_name symbolic
         paths = nf.decision_paths(fi.node.body, keep_locals=(res_name, used_name))
+        n_valid = 0
+        skipping = []
         for p in paths:
             where = lib.loc(fi, p.leaf.stmt) if p.leaf.stmt is not None else fi.loc
             if p.leaf.kind == 'raise':
@@ -93,27 +95,36 @@ def d1_validation_on_credit(ctx, idx):
             if not (isinstance(p.leaf.expr, ast.Name) and p.leaf.expr.id == res_name):
                 r.undecided(C + ': return', 'returns `%s`, not the raw result' % short(p.leaf.expr), where)
                 continue
-            gtxt = ' and '.join(unparse(g) for g in p.guards) or 'unconditional'
             if validated:
-                r.ok(C + ': validating path', 'validated before returning (guards: %s)' % gtxt, where)
-                continue
-            # a path that skips validation: which result records can take it?
+                n_valid += 1
+            else:
+                skipping.append((p, where))
+        bad = False
+        for p, where in skipping:
+            gtxt = ' and '.join(unparse(g) for g in p.guards) or 'unconditional'
+            # which result records can take a path that skips validation?  Guards that do not speak about the
+            # result (e.g. config['debug']) are treated as satisfiable.
             witnesses = []
             try:
                 for rec in RECORDS:
-                    if all(mev.ev(g, {res_name: rec}) for g in p.guards):
+                    if all(mev.ev(g, {res_name: rec}) for g in p.guards if fl.mentions(g, res_name)):
                         witnesses.append(rec)
             except mev.Unsupported as e:
-                r.undecided(C + ': skipping path', 'guard `%s` not evaluable over the result records (%s)' % (gtxt, e), where)
+                bad = True
+                r.undecided(C + ': paths that skip validation', 'guard `%s` not evaluable over the result records (%s)' % (gtxt, e), where)
                 continue
             credited = [w for w in witnesses if w['ok'] is not False]
             if credited:
-                r.violation(C + ': skipping path', "under `%s` a verdict with ok=%r (grade %s) is returned without post_eval_validation: "
-                            "a formula that uses a black-listed function or a forbidden string, or omits a required function, "
-                            "keeps this credit" % (gtxt, credited[0]['ok'], credited[0]['grade_decimal']), where,
+                bad = True
+                r.violation(C + ': paths that skip validation', "under `%s` a verdict with ok=%r (grade %s) is returned without "
+                            "post_eval_validation: a formula that uses a black-listed function or a forbidden string, or omits a "
+                            "required function, keeps this credit" % (gtxt, credited[0]['ok'], credited[0]['grade_decimal']), where,
                             expected="validation whenever ok is True or 'partial'")
-            else:
-                r.ok(C + ': skipping path', 'only ok=False skips validation (guards: %s)' % gtxt, where)
+        if not bad:
+            r.ok(C + ': paths that skip validation', '%d returning path(s) validate; %d skip validation, all only for ok=False'
+                 % (n_valid, len(skipping)), fi.loc)
+        if n_valid == 0 and not bad:
+            r.violation(C + ': paths that skip validation', 'no returning path runs post_eval_validation', fi.loc)
         # arguments of the validation call (D6: never the author's expression)
         for pv in pvs:
             a0 = lib.get_kw(pv, 'expr', 0)
@@ -185,7 +196,7 @@ def _arg_for(callee_fi, call, pname):
 
 def d2_post_eval(ctx, idx):
     r = ctx.rule('D2.VALIDATE', "post_eval_validation runs all three validators on the student's expression and function set",
-                 floor=14)
+                 floor=18)
     with r:
         fi = idx.func(MM + '.post_eval_validation')
         C = 'MathMixin.post_eval_validation'
@@ -381,7 +392,7 @@ def _strip_kind(e, var):
 
 def d3_validators(ctx, idx):
     r = ctx.rule('D3.NF', 'the three validators refuse exactly: forbidden substring (spaces ignored on both sides), missing '
-                 'required function, used function outside the permitted set', floor=9)
+                 'required function, used function outside the permitted set', floor=12)
     with r:
         # ---- forbidden strings
         fi = idx.func(HELP + 'validate_forbidden_strings_not_used')
@@ -516,6 +527,13 @@ def d3_validators(ctx, idx):
         env = lib.local_env(fi.node)
         for t, x in hits:
             where = lib.loc(fi, t)
+            if isinstance(t.test, ast.Constant):
+                if not t.test.value:
+                    r.violation(C + ': test', 'the refusal is unreachable (`if %r`): functions outside the permitted set are accepted'
+                                % t.test.value, where)
+                else:
+                    r.violation(C + ': test', 'the refusal is unconditional (`if %r`)' % t.test.value, where)
+                continue
             test = nf.subst(t.test, env)
             inner_e = test
             while isinstance(inner_e, ast.Call) and nf.callee_name(inner_e) in ('sorted', 'list', 'set', 'len', 'any') and inner_e.args:
@@ -562,7 +580,7 @@ PERM_SCENARIOS = [
 
 def d3_permitted(ctx, idx):
     r = ctx.rule('D3.PERMITTED', 'permitted = (defaults U always-allowed) - blacklist | always-allowed for [None] | '
-                 'always-allowed U whitelist; fed with user_functions as always-allowed', floor=8)
+                 'always-allowed U whitelist; fed with user_functions as always-allowed', floor=11)
     with r:
         fi = idx.func(HELP + 'get_permitted_functions')
         C = 'get_permitted_functions'
@@ -633,3 +651,429 @@ def d3_permitted(ctx, idx):
             init = idx.func(q + '.__init__')
             r.check(bool(lib.calls_named(init.node, 'validate_math_config')), q.split('.')[-1] + '.__init__', 'calls validate_math_config',
                     'validate_math_config is no longer called: permitted_functions is never computed', init.loc)
+
+
+# ----------------------------------------------------------------------------- D4
+def _closure_exprs(prov, name, limit=40):
+    """All expressions that flow (transitively) into a local name."""
+    seen, out, todo = set(), [], [name]
+    while todo and len(out) < limit:
+        n = todo.pop()
+        if n in seen:
+            continue
+        seen.add(n)
+        for v in prov.defs.get(n, []):
+            out.append(v)
+            for x in ast.walk(v):
+                if isinstance(x, ast.Name) and isinstance(x.ctx, ast.Load):
+                    todo.append(x.id)
+    return out
+
+
+def d4_scrub(ctx, idx):
+    r = ctx.rule('D4.SCRUB', 'instructor (and sibling) names are deleted from the variable scope after the author\'s and before the '
+                 'student\'s evaluation, on every path, in all three gen_evaluations', floor=16)
+    with r:
+        for q in (FGC, IGC, SGC):
+            fi = idx.func(q + '.gen_evaluations')
+            name = q.split('.')[-1] + '.gen_evaluations'
+            author, student = _gen_eval_roots(fi)
+            a_calls, s_calls = eval_sites(fi, author, student)
+            if len(a_calls) != 1 or len(s_calls) != 1:
+                raise AnalysisError('%s: expected one author and one student evaluation' % name)
+            ac, sc = a_calls[0], s_calls[0]
+            loop = fl.enclosing_loop(sc, fi.node)
+            if loop is None or fl.enclosing_loop(ac, fi.node) is not loop:
+                r.undecided(name, 'author and student evaluations are not in one loop (see C04-D4)', lib.loc(fi, sc))
+                continue
+            scope = {k: n for k, n in scope_names(fi, [sc])}
+            vscope = scope.get('variables') or scope.get('varscope')
+            if vscope is None or vscope.startswith('<'):
+                r.undecided(name + ': scope', 'variable scope of the student\'s evaluation is not a plain name', lib.loc(fi, sc))
+                continue
+            cfg = cfg_of(fi.node)
+            a_nodes, s_nodes = fl.nodes_for(cfg, ac), fl.nodes_for(cfg, sc)
+            head = fl.loop_head(cfg, loop)
+            # deletion statements on the student's variable scope
+            dels = []
+            for n in ast.walk(loop):
+                if isinstance(n, ast.Delete):
+                    for t in n.targets:
+                        if isinstance(t, ast.Subscript) and fl.name_of(t.value) == vscope:
+                            dels.append((n, t))
+                elif isinstance(n, ast.Call) and isinstance(n.func, ast.Attribute) and n.func.attr == 'pop' \
+                        and fl.name_of(n.func.value) == vscope and isinstance(enclosing_stmt(n), ast.Expr):
+                    dels.append((enclosing_stmt(n), n))
+            other_dels = [n for n in ast.walk(loop) if isinstance(n, ast.Delete) and not any(n is d for d, _ in dels)
+                          and any(isinstance(t, ast.Subscript) for t in n.targets)]
+            if not dels:
+                if other_dels:
+                    t = other_dels[0].targets[0]
+                    r.violation(name + ': deletion', 'names are deleted from `%s`, which is not the scope `%s` the student\'s input is '
+                                'evaluated with: instructor variables stay visible to the student' % (short(t.value), vscope),
+                                lib.loc(fi, other_dels[0]), expected='del %s[key]' % vscope)
+                else:
+                    r.violation(name + ': deletion', 'nothing is deleted from the scope `%s` before the student\'s evaluation: the student can '
+                                'use instructor-only%s variables (e.g. submit the instructor variable that holds the answer)'
+                                % (vscope, ' and sibling' if q == FGC else ''), lib.loc(fi, sc),
+                                expected='for key in var_blacklist: del %s[key]' % vscope)
+                continue
+            if len(dels) != 1:
+                raise AnalysisError('%s: several deletions from the scope' % name)
+            dstmt, dtarget = dels[0]
+            dloop = fl.enclosing_loop(dstmt, fi.node)
+            where = lib.loc(fi, dstmt)
+            if dloop is loop or dloop is None or not isinstance(dloop, ast.For) or not isinstance(dloop.target, ast.Name):
+                r.undecided(name + ': deletion', 'the deletion is not inside its own `for key in <black-list>` loop', where)
+                continue
+            kv = dloop.target.id
+            key_ok = (isinstance(dtarget, ast.Subscript) and fl.name_of(dtarget.slice) == kv) or \
+                     (isinstance(dtarget, ast.Call) and dtarget.args and fl.name_of(dtarget.args[0]) == kv)
+            direct = any(s is dstmt for s in dloop.body)
+            exits = lib.loop_has_early_exit(dloop)
+            if not key_ok:
+                r.undecided(name + ': deletion', 'deleted key is not the loop variable', where)
+                continue
+            if not direct or exits:
+                r.violation(name + ': deletion', 'not every black-listed name is deleted (%s): some instructor variables stay visible to '
+                            'the student' % ('conditional deletion' if not direct else 'loop left early: `%s`' % short(exits[0])), where)
+                continue
+            bl = dloop.iter
+            if not isinstance(bl, ast.Name):
+                if isinstance(bl, ast.Subscript):
+                    r.violation(name + ': deletion', 'only part of the black-list is deleted (`%s`)' % short(bl), where)
+                else:
+                    r.undecided(name + ': deletion', 'black-list expression not recognised: %s' % short(bl), where)
+                continue
+            r.ok(name + ': deletion', 'for %s in %s: del %s[%s]' % (kv, bl.id, vscope, kv), where)
+            # (i) the black-list content
+            prov = fl.Prov(fi.node)
+            flows = _closure_exprs(prov, bl.id)
+            has_instr = any(lib.mentions_config(e, 'instructor_vars') for e in flows)
+            r.check(has_instr, name + ': black-list [instructor_vars]', "built from config['instructor_vars']",
+                    "config['instructor_vars'] no longer flows into the black-list `%s`: instructor-only variables are never removed from "
+                    "the student's scope" % bl.id, lib.loc(fi, dloop))
+            if q == FGC:
+                has_sib = any(fl.mentions(e, 'sibling_formulas') for e in flows)
+                r.check(has_sib, name + ': black-list [siblings]', 'contains the sibling variable names',
+                        'the sibling variable names no longer flow into the black-list `%s`: a student can refer to sibling_N, i.e. to '
+                        'another input box, in this answer' % bl.id, lib.loc(fi, dloop))
+            # the black-list is complete before the sampling loop starts
+            fills = [n for n in walk_own(fi.node) if isinstance(n, (ast.Call, ast.AugAssign, ast.Assign)) and (
+                (isinstance(n, ast.Call) and isinstance(n.func, ast.Attribute) and n.func.attr in ('append', 'extend')
+                 and fl.name_of(n.func.value) == bl.id) or
+                (isinstance(n, ast.AugAssign) and fl.name_of(n.target) == bl.id) or
+                (isinstance(n, ast.Assign) and any(fl.name_of(t) == bl.id for t in n.targets)))]
+            late = [n for n in fills if any(a is loop for a in ancestors(n))]
+            if late:
+                r.undecided(name + ': black-list', 'the black-list is modified inside the sampling loop', lib.loc(fi, late[0]))
+            # (ii) on every path between author and student, after the author
+            d_nodes = cfg.nodes_of(dloop)
+            if fl.path_avoiding_in_iteration(cfg, loop, a_nodes, s_nodes, d_nodes):
+                after_student = cfg.reaches(s_nodes, d_nodes, blocked=[head], after=True)
+                r.violation(name + ': order', 'a path leads from the author\'s evaluation to the student\'s without passing the deletion%s: '
+                            'on it the student\'s input is evaluated with the instructor%s variables still in scope'
+                            % (' (the deletion now comes after the student\'s evaluation)' if after_student else '',
+                               '/sibling' if q == FGC else ''), where,
+                            expected='author evaluation; deletion; student evaluation')
+            else:
+                r.ok(name + ': order', 'the deletion lies on every path from the author\'s to the student\'s evaluation', where)
+            if cfg.reaches([head], d_nodes, blocked=a_nodes, after=True):
+                r.violation(name + ': author first', 'the deletion can run before the author\'s expressions are evaluated: an answer that '
+                            'uses an instructor variable is no longer evaluable (the author\'s own answers must remain free to use them)',
+                            where)
+            else:
+                r.ok(name + ': author first', 'the author\'s expressions are evaluated with the full scope', where)
+            # (iii) nothing re-inserts between deletion and the student's evaluation
+            back = []
+            between = set(fl.between_in_iteration(cfg, loop, d_nodes, s_nodes))
+            for n in ast.walk(loop):
+                writes = False
+                if isinstance(n, ast.Call) and isinstance(n.func, ast.Attribute) and fl.name_of(n.func.value) == vscope \
+                        and n.func.attr in ('update', 'setdefault', '__setitem__'):
+                    writes = True
+                elif isinstance(n, ast.Assign) and any((isinstance(t, ast.Subscript) and fl.name_of(t.value) == vscope)
+                                                       or fl.name_of(t) == vscope for t in n.targets):
+                    writes = True
+                if writes:
+                    nodes = set(cfg.nodes_containing(n) if not isinstance(n, ast.stmt) else cfg.nodes_of(n))
+                    if nodes & between and not any(a is dloop for a in ancestors(n)):
+                        back.append(n)
+            if back:
+                r.violation(name + ': re-insertion', '`%s` refills the scope after the deletion and before the student\'s evaluation: the '
+                            'deleted names are visible again' % short(back[0]), lib.loc(fi, back[0]))
+            else:
+                r.ok(name + ': re-insertion', 'nothing writes to %s between the deletion and the student\'s evaluation' % vscope, where)
+
+
+# ----------------------------------------------------------------------------- D5
+def d5_scope(ctx, idx):
+    r = ctx.rule('D5.SCOPE', 'every evaluation first checks the parse-time name sets against the given scope', floor=23)
+    with r:
+        fi = idx.func(ME + '.eval')
+        C = 'MathExpression.eval'
+        ens = lib.one_call(fi, 'eval_node')
+        cs = [c for c in lib.calls_named(fi.node, 'check_scope')]
+        if not cs:
+            r.violation(C + ': check_scope', 'check_scope is no longer called: an undefined or scrubbed name is only noticed if its value '
+                        'is actually needed, and student-facing UndefinedVariable/UndefinedFunction errors are lost', fi.loc)
+        else:
+            c = cs[0]
+            dom = lib.dominated(fi, [c], [ens])
+            r.check(dom, C + ': check_scope', 'precedes eval_node on every path',
+                    'a path reaches eval_node without check_scope (`%s`): on it names are not checked against the scope before evaluation'
+                    % (short(fl.if_chain_containing(c, fi.node)[0][0].test) if fl.if_chain_containing(c, fi.node) else 'conditional'),
+                    lib.loc(fi, c))
+            callee = idx.func(ME + '.check_scope')
+            for pn in ('variables', 'functions', 'suffixes'):
+                a = _arg_for(callee, c, pn)
+                if isinstance(a, ast.Name) and a.id == pn:
+                    r.ok(C + ': check_scope(%s)' % pn, 'the scope the expression is evaluated with', lib.loc(fi, c))
+                elif isinstance(a, ast.Name) and a.id in ('variables', 'functions', 'suffixes'):
+                    r.violation(C + ': check_scope(%s)' % pn, '`%s` is passed as %s: names are checked against the wrong table' % (a.id, pn),
+                                lib.loc(fi, c), expected=pn, found=a.id)
+                else:
+                    r.undecided(C + ': check_scope(%s)' % pn, 'argument not recognised: %s' % short(a), lib.loc(fi, c))
+        # check_scope itself
+        f = idx.func(ME + '.check_scope')
+        C = 'MathExpression.check_scope'
+        env = lib.local_env(f.node)
+        want = {'variables': ('variables_used', {'UndefinedVariable'}), 'functions': ('functions_used', {'UndefinedFunction'}),
+                'suffixes': ('suffixes_used', {'UndefinedFunction', 'UndefinedVariable', 'UnableToParse'})}
+        found = {}
+        tests = []
+        for t in [n for n in walk_own(f.node) if isinstance(n, ast.If)]:
+            direct = [x for x in t.body if isinstance(x, ast.Raise)]
+            nested = [x for x in ast.walk(t) if isinstance(x, ast.Raise)]
+            tests.append((t, direct[-1] if direct else (None if not nested else nested[-1]), bool(direct)))
+        for t, x, raises_directly in tests:
+            test = nf.subst(t.test, env)
+            e = test
+            while isinstance(e, ast.Call) and nf.callee_name(e) in ('set', 'list', 'sorted', 'len', 'bool') and e.args:
+                e = e.args[0]
+            if not (isinstance(e, (ast.GeneratorExp, ast.ListComp, ast.SetComp)) and len(e.generators) == 1
+                    and isinstance(e.generators[0].target, ast.Name)):
+                diff = None
+                for pn, (attr, _) in want.items():
+                    if nf.match('self.%s - set(%s)' % (attr, pn), e) is not None or \
+                            nf.match('self.%s.difference(%s)' % (attr, pn), e) is not None:
+                        diff = pn
+                if diff:
+                    found[diff] = (t, x if raises_directly else None, True)
+                continue
+            g = e.generators[0]
+            v = g.target.id
+            for pn, (attr, _) in want.items():
+                if nf.match('self.%s' % attr, g.iter) is not None and len(g.ifs) == 1:
+                    flt = nf.canon(g.ifs[0])
+                    if nf.match('%s not in %s' % (v, pn), flt) is not None:
+                        found[pn] = (t, x if raises_directly else None, True)
+                    elif nf.match('%s in %s' % (v, pn), flt) is not None:
+                        found[pn] = (t, x, 'the test is inverted (`%s`): names that ARE in the scope are reported and unknown names pass'
+                                     % unparse(g.ifs[0]))
+                    else:
+                        others = [o for o in want if o != pn and nf.match('%s not in %s' % (v, o), flt) is not None]
+                        if others:
+                            found[pn] = (t, x, 'the %s used are looked up in `%s` instead of `%s`' % (pn, others[0], pn))
+        for pn, (attr, classes) in want.items():
+            if pn not in found:
+                sev = r.violation if pn != 'suffixes' else r.undecided
+                # is the parse-time set mentioned at all?
+                mentioned = any(isinstance(n, ast.Attribute) and n.attr == attr for n in walk_all(f.node))
+                if mentioned:
+                    r.undecided(C + ': ' + pn, 'the test on self.%s is not recognised' % attr, f.loc)
+                else:
+                    r.violation(C + ': ' + pn, 'self.%s is no longer compared with the scope: an unknown %s is not rejected up front '
+                                '(a term such as 0*z or z^0 may evaluate without ever looking z up)' % (attr, pn[:-1]), f.loc)
+                continue
+            t, x, verdict = found[pn]
+            if verdict is True and x is None:
+                r.violation(C + ': ' + pn, 'unknown %s are detected (`%s`) but nothing is raised for them: the name is only noticed if its '
+                            'value is actually looked up' % (pn, short(t.test)), lib.loc(f, t),
+                            expected='raise %s' % '/'.join(sorted(classes)))
+                continue
+            if verdict is True:
+                r.ok(C + ': ' + pn, 'names of self.%s that are absent from `%s` raise' % (attr, pn), lib.loc(f, t))
+            else:
+                r.violation(C + ': ' + pn, verdict, lib.loc(f, t))
+            if x is None:
+                continue
+            cn = nf.exc_class_name(x.exc)
+            if cn in classes:
+                r.ok(C + ': %s error' % pn, cn, lib.loc(f, x))
+            elif lib.exc_is_subclass(idx, f.module, cn, 'StudentFacingError'):
+                r.ok(C + ': %s error' % pn, '%s (student-facing)' % cn, lib.loc(f, x), nontrivial=False)
+            else:
+                r.violation(C + ': %s error' % pn, 'raises %s, which is not a student-facing error' % cn, lib.loc(f, x),
+                            expected='/'.join(sorted(classes)))
+        # the parse-time sets are the ones recorded by the parser
+        init = idx.func(ME + '.__init__')
+        for attr in ('variables_used', 'functions_used', 'suffixes_used'):
+            st = [n for n in walk_own(init.node) if isinstance(n, ast.Assign) and any(nf.match('self.%s' % attr, t) is not None for t in n.targets)]
+            ok = len(st) == 1 and isinstance(st[0].value, ast.Name) and st[0].value.id == attr
+            if ok:
+                r.ok('MathExpression.__init__: ' + attr, 'set from the parser\'s record', lib.loc(init, st[0]))
+            elif len(st) == 1 and isinstance(st[0].value, ast.Name) and st[0].value.id in init.params:
+                r.violation('MathExpression.__init__: ' + attr, 'self.%s is initialised from `%s`' % (attr, st[0].value.id), lib.loc(init, st[0]))
+            else:
+                r.undecided('MathExpression.__init__: ' + attr, 'assignment not recognised', init.loc)
+        # evaluator forwards the scope
+        ev = idx.func('mitxgraders.helpers.calc.expressions.evaluator')
+        calls = [c for c in lib.calls_named(ev.node, 'eval') if isinstance(c.func, ast.Attribute)]
+        if len(calls) != 1:
+            raise AnalysisError('evaluator: expected one <parsed>.eval(...) call')
+        c = calls[0]
+        for pn in ('variables', 'functions', 'suffixes'):
+            a = _arg_for(fi, c, pn)
+            if isinstance(a, ast.Name) and a.id == pn:
+                r.ok('evaluator: eval(%s)' % pn, 'forwards its own %s' % pn, lib.loc(ev, c))
+            elif isinstance(a, ast.Name) and a.id in ('variables', 'functions', 'suffixes'):
+                r.violation('evaluator: eval(%s)' % pn, '`%s` is passed as %s' % (a.id, pn), lib.loc(ev, c))
+            elif a is None or (isinstance(a, ast.Name) and a.id.startswith('DEFAULT_')):
+                r.violation('evaluator: eval(%s)' % pn, 'the caller\'s %s are not forwarded (%s): the scrubbed scope is ignored and the '
+                            'default table is used' % (pn, short(a)), lib.loc(ev, c))
+            else:
+                r.undecided('evaluator: eval(%s)' % pn, 'argument not recognised: %s' % short(a), lib.loc(ev, c))
+        # the graders hand their (scrubbed) scope objects to evaluator
+        g = idx.func(FGC + '.gen_evaluations')
+        inner = idx.func(FGC + '.gen_evaluations.<locals>.scoped_eval')
+        calls = lib.calls_named(inner.node, 'evaluator')
+        if len(calls) != 1:
+            raise AnalysisError('scoped_eval: expected one evaluator call')
+        c = calls[0]
+        for pn in ('variables', 'functions', 'suffixes'):
+            a = _arg_for(ev, c, pn)
+            if isinstance(a, ast.Name) and a.id == pn and pn in inner.params:
+                r.ok('FormulaGrader.gen_evaluations.scoped_eval: evaluator(%s)' % pn, 'forwards its %s parameter' % pn, lib.loc(inner, c))
+            elif isinstance(a, ast.Name) and a.id in inner.params:
+                r.violation('FormulaGrader.gen_evaluations.scoped_eval: evaluator(%s)' % pn, '`%s` is passed as %s' % (a.id, pn), lib.loc(inner, c))
+            else:
+                r.undecided('FormulaGrader.gen_evaluations.scoped_eval: evaluator(%s)' % pn, 'argument not recognised: %s' % short(a),
+                            lib.loc(inner, c))
+        for q, meth, nested in ((SGB, 'get_limits_and_funcs', None), (IGC, 'evaluate_int', 'raw_integrand'), (SGC, 'evaluate_sum', 'eval_summand')):
+            f2 = idx.func('%s.%s' % (q, meth))
+            holder = idx.func('%s.%s.<locals>.%s' % (q, meth, nested)) if nested else f2
+            for c in lib.calls_named(holder.node, 'evaluator'):
+                av, af = _arg_for(ev, c, 'variables'), _arg_for(ev, c, 'functions')
+                ok = fl.name_of(av) == 'varscope' and fl.name_of(af) == 'funcscope'
+                construct = '%s.%s%s: evaluator(...)' % (q.split('.')[-1], meth, ('.' + nested) if nested else '')
+                if ok:
+                    r.ok(construct, 'variables=varscope, functions=funcscope', lib.loc(holder, c))
+                elif av is None or af is None:
+                    r.violation(construct, 'the scope is not forwarded (%s): the expression is evaluated with the default tables, so deleted '
+                                'instructor variables do not matter' % short(c), lib.loc(holder, c))
+                elif fl.name_of(av) == 'funcscope' and fl.name_of(af) == 'varscope':
+                    r.violation(construct, 'variables and functions scopes are swapped', lib.loc(holder, c))
+                else:
+                    r.undecided(construct, 'scope arguments not recognised: %s' % short(c), lib.loc(holder, c))
+
+
+# ------------------------------------------------------------------------ self-test
+_FG_DEL = "            for key in var_blacklist:\n                del varlist[key]\n\n            student_eval, meta = scoped_eval(student_input)\n            student_evals.append(student_eval)\n"
+_SUM_DEL = "            for key in var_blacklist:\n                del varlist[key]\n                \n            # Evaluate sums.\n"
+_INT_DEL = "            for key in var_blacklist:\n                del varlist[key]\n\n            student_re, student_im, used_funcs = self.evaluate_int("
+
+MUTANTS = [
+    # D1
+    Mutant('validate-only-when-true', MH, "        if result['ok'] is True or result['ok'] == 'partial':", "        if result['ok'] is True:", 'D1'),
+    Mutant('validate-only-full-credit', MH, "        if result['ok'] is True or result['ok'] == 'partial':", "        if result['grade_decimal'] == 1:", 'D1'),
+    Mutant('validate-when-wrong', MH, "        if result['ok'] is True or result['ok'] == 'partial':", "        if result['ok'] is False:", 'D1'),
+    Mutant('validation-dropped', MH, "        if result['ok'] is True or result['ok'] == 'partial':\n            self.post_eval_validation(student_input, used_funcs)\n", "", 'D1'),
+    Mutant('validate-author-expression', MH, "            self.post_eval_validation(student_input, used_funcs)",
+           "            self.post_eval_validation(answer['expect']['comparer_params'], used_funcs)", 'D1'),
+    Mutant('validate-empty-function-set', MH, "            self.post_eval_validation(student_input, used_funcs)",
+           "            self.post_eval_validation(student_input, set())", 'D1'),
+    Mutant('check-response-bypasses-validation', FG, "        return self.check_math_response(answer, student_input, **kwargs)",
+           "        return self.raw_check(answer, student_input, **kwargs)[0]", 'D1'),
+    Mutant('debug-skips-validation', MH, "        if result['ok'] is True or result['ok'] == 'partial':",
+           "        if self.config['debug']:\n            return result\n        if result['ok'] is True or result['ok'] == 'partial':", 'D1'),
+    # D2
+    Mutant('forbidden-validator-dropped', MH, "        validate_forbidden_strings_not_used(expr,\n                                            self.config['forbidden_strings'],\n                                            self.config['forbidden_message'])\n", "", 'D2'),
+    Mutant('required-validator-dropped', MH, "        validate_required_functions_used(used_funcs, self.config['required_functions'])\n", "", 'D2'),
+    Mutant('permitted-validator-dropped', MH, "        validate_only_permitted_functions_used(used_funcs, self.permitted_functions)\n", "        pass\n", 'D2'),
+    Mutant('permitted-is-all-functions', MH, "        validate_only_permitted_functions_used(used_funcs, self.permitted_functions)",
+           "        validate_only_permitted_functions_used(used_funcs, self.functions)", 'D2'),
+    Mutant('required-reads-blacklist', MH, "        validate_required_functions_used(used_funcs, self.config['required_functions'])",
+           "        validate_required_functions_used(used_funcs, self.config['blacklist'])", 'D2'),
+    Mutant('permitted-only-without-forbidden', MH, "        validate_only_permitted_functions_used(used_funcs, self.permitted_functions)",
+           "        if self.config['forbidden_strings']:\n            validate_only_permitted_functions_used(used_funcs, self.permitted_functions)", 'D2'),
+    Mutant('sum-functions-from-author', IG, "        return instructor_evals, student_evals, used_funcs\n\n    def evaluate_sum(",
+           "        return instructor_evals, student_evals, parse(answer['summand']).functions_used\n\n    def evaluate_sum(", 'D2'),
+    Mutant('summand-functions-not-reported', IG, "        used_funcs = lower_used.functions_used.union(upper_used.functions_used, expression_used.functions_used)",
+           "        used_funcs = lower_used.functions_used.union(upper_used.functions_used)", 'D2'),
+    Mutant('raw-check-reports-no-functions', FG, "        return consolidated, functions_used", "        return consolidated, set()", 'D2'),
+    # D3
+    Mutant('student-spaces-not-stripped', MH, "        stripped_expr = expression.replace(' ', '')\n", "        stripped_expr = expression\n", 'D3'),
+    Mutant('forbidden-spaces-not-stripped', MH, "            check_for = forbidden.replace(' ', '')\n", "            check_for = forbidden\n", 'D3'),
+    Mutant('forbidden-not-in', MH, "            if check_for in stripped_expr:", "            if check_for not in stripped_expr:", 'D3'),
+    Mutant('forbidden-containment-reversed', MH, "            if check_for in stripped_expr:", "            if stripped_expr in check_for:", 'D3'),
+    Mutant('forbidden-first-expression-only', MH, "                raise InvalidInput(forbidden_msg)\n    return True",
+           "                raise InvalidInput(forbidden_msg)\n        break\n    return True", 'D3'),
+    Mutant('forbidden-dict-keys', MH, "        expr = [v for k, v in expr.items()]", "        expr = [k for k, v in expr.items()]", 'D3'),
+    Mutant('required-inverted', MH, "        if func not in used_funcs:", "        if func in used_funcs:", 'D3'),
+    Mutant('required-first-only', MH, "            raise InvalidInput(msg.format(func))\n    return True", "            raise InvalidInput(msg.format(func))\n        break\n    return True", 'D3'),
+    Mutant('permitted-filter-inverted', MH, "sorted([f for f in used_funcs if f not in permitted_functions])", "sorted([f for f in used_funcs if f in permitted_functions])", 'D3'),
+    Mutant('permitted-roles-swapped', MH, "sorted([f for f in used_funcs if f not in permitted_functions])", "sorted([f for f in permitted_functions if f not in used_funcs])", 'D3'),
+    Mutant('permitted-never-raises', MH, "    if used_not_permitted:\n        func_names", "    if False:\n        func_names", 'D3'),
+    Mutant('blacklist-difference-dropped', MH, "        permitted_functions = set(always_allowed).union(\n            set(default_funcs)\n            ).difference(set(blacklist))",
+           "        permitted_functions = set(always_allowed).union(\n            set(default_funcs)\n            )", 'D3'),
+    Mutant('none-whitelist-returns-defaults', MH, "        permitted_functions = set(always_allowed)\n    else:", "        permitted_functions = set(always_allowed).union(set(default_funcs))\n    else:", 'D3'),
+    Mutant('whitelist-adds-defaults', MH, "        permitted_functions = set(always_allowed).union(whitelist)", "        permitted_functions = set(always_allowed).union(whitelist).union(default_funcs)", 'D3'),
+    Mutant('whitelist-forgets-user-functions', MH, "        permitted_functions = set(always_allowed).union(whitelist)", "        permitted_functions = set(whitelist)", 'D3'),
+    Mutant('blacklist-whitelist-swapped-at-call', MH, "                                                           self.config['whitelist'],\n                                                           self.config['blacklist'],",
+           "                                                           self.config['blacklist'],\n                                                           self.config['whitelist'],", 'D3'),
+    # D4
+    Mutant('formula-deletion-after-student', FG, _FG_DEL, "            student_eval, meta = scoped_eval(student_input)\n            student_evals.append(student_eval)\n            for key in var_blacklist:\n                del varlist[key]\n", 'D4'),
+    Mutant('formula-deletion-dropped', FG, "            for key in var_blacklist:\n                del varlist[key]\n\n            student_eval, meta", "            student_eval, meta", 'D4'),
+    Mutant('sum-deletion-dropped', IG, _SUM_DEL, "            # Evaluate sums.\n", 'D4'),
+    Mutant('integral-deletion-dropped', IG, "            for key in var_blacklist:\n                del varlist[key]\n\n            student_re, student_im", "            student_re, student_im", 'D4'),
+    Mutant('formula-deletion-only-in-debug', FG, "            for key in var_blacklist:\n                del varlist[key]\n\n            student_eval, meta",
+           "            if self.config['debug']:\n                for key in var_blacklist:\n                    del varlist[key]\n\n            student_eval, meta", 'D4'),
+    Mutant('formula-siblings-not-blacklisted', FG, "        var_blacklist += sibling_vars\n", "", 'D4'),
+    Mutant('sum-instructor-vars-not-blacklisted', IG, "        for var in self.config['instructor_vars']:\n            if var in var_samples[0]:\n                var_blacklist.append(var)\n\n        for i in range(self.config['samples']):\n            # Update the functions and variables listings with this sample\n            funclist.update(func_samples[i])\n            varlist.update(var_samples[i])\n\n            # Evaluate sums.",
+           "        for i in range(self.config['samples']):\n            # Update the functions and variables listings with this sample\n            funclist.update(func_samples[i])\n            varlist.update(var_samples[i])\n\n            # Evaluate sums.", 'D4'),
+    Mutant('formula-deletes-from-copy', FG, "            for key in var_blacklist:\n                del varlist[key]\n\n            student_eval, meta",
+           "            scrubbed = dict(varlist)\n            for key in var_blacklist:\n                del scrubbed[key]\n\n            student_eval, meta", 'D4'),
+    Mutant('formula-scope-restored-too-early', FG, "            for key in var_blacklist:\n                del varlist[key]\n\n            student_eval, meta",
+           "            for key in var_blacklist:\n                del varlist[key]\n            varlist.update(var_samples[i])\n\n            student_eval, meta", 'D4'),
+    Mutant('formula-deletion-before-author', FG, "            # Compute expressions\n            comparer_params_eval = self.eval_and_validate_comparer_params(scoped_eval, comparer_params)\n            comparer_params_evals.append(comparer_params_eval)\n\n            # Before performing student evaluation, scrub the sibling and instructor\n            # variables so that students can't use them\n            for key in var_blacklist:\n                del varlist[key]\n",
+           "            for key in var_blacklist:\n                del varlist[key]\n            comparer_params_eval = self.eval_and_validate_comparer_params(scoped_eval, comparer_params)\n            comparer_params_evals.append(comparer_params_eval)\n", 'D4'),
+    Mutant('sum-deletes-first-only', IG, "            for key in var_blacklist:\n                del varlist[key]\n                \n", "            for key in var_blacklist[:1]:\n                del varlist[key]\n                \n", 'D4'),
+    # D5
+    Mutant('check-scope-skipped', EXPR, "        self.check_scope(variables, functions, suffixes)\n\n        # metadata_dict", "        # metadata_dict", 'D5'),
+    Mutant('check-scope-conditional', EXPR, "        self.check_scope(variables, functions, suffixes)\n\n        # metadata_dict",
+           "        if not allow_inf:\n            self.check_scope(variables, functions, suffixes)\n\n        # metadata_dict", 'D5'),
+    Mutant('check-scope-args-swapped', EXPR, "        self.check_scope(variables, functions, suffixes)\n\n        # metadata_dict",
+           "        self.check_scope(functions, variables, suffixes)\n\n        # metadata_dict", 'D5'),
+    Mutant('bad-vars-inverted', EXPR, "bad_vars = set(var for var in self.variables_used if var not in variables)", "bad_vars = set(var for var in self.variables_used if var in variables)", 'D5'),
+    Mutant('bad-vars-never-raise', EXPR, "            raise UndefinedVariable(message.format(varnames))\n", "            pass\n", 'D5'),
+    Mutant('bad-funcs-looked-up-in-variables', EXPR, "bad_funcs = set(func for func in self.functions_used if func not in functions)",
+           "bad_funcs = set(func for func in self.functions_used if func not in variables)", 'D5'),
+    Mutant('evaluator-ignores-variables', EXPR, "    result, eval_metadata = parsed.eval(variables, functions, suffixes, allow_inf=allow_inf)",
+           "    result, eval_metadata = parsed.eval(DEFAULT_VARIABLES, functions, suffixes, allow_inf=allow_inf)", 'D5'),
+    Mutant('summand-evaluated-with-default-scope', IG, "            value, _ = evaluator(summand_str,\n                                 variables=varscope,\n                                 functions=funcscope,",
+           "            value, _ = evaluator(summand_str,", 'D5'),
+]
+
+BENIGN = [
+    Benign('validate-is-not-false', MH, "        if result['ok'] is True or result['ok'] == 'partial':", "        if result['ok'] is not False:"),
+    Benign('validate-ne-false', MH, "        if result['ok'] is True or result['ok'] == 'partial':", "        if result['ok'] != False:"),
+    Benign('validate-positive-grade', MH, "        if result['ok'] is True or result['ok'] == 'partial':", "        if result['grade_decimal'] > 0:"),
+    Benign('validate-always', MH, "        if result['ok'] is True or result['ok'] == 'partial':\n            self.post_eval_validation(student_input, used_funcs)",
+           "        self.post_eval_validation(student_input, used_funcs)"),
+    Benign('early-return-when-wrong', MH, "        if result['ok'] is True or result['ok'] == 'partial':\n            self.post_eval_validation(student_input, used_funcs)\n        return result",
+           "        if result['ok'] is False:\n            return result\n        self.post_eval_validation(student_input, used_funcs)\n        return result"),
+    Benign('validators-reordered', MH, "        validate_required_functions_used(used_funcs, self.config['required_functions'])\n        \n        validate_only_permitted_functions_used(used_funcs, self.permitted_functions)",
+           "        validate_only_permitted_functions_used(used_funcs, self.permitted_functions)\n        validate_required_functions_used(used_funcs, required_funcs=self.config['required_functions'])"),
+    Benign('forbidden-inline', MH, "        stripped_expr = expression.replace(' ', '')\n        for forbidden in forbidden_strings:\n            check_for = forbidden.replace(' ', '')\n            if check_for in stripped_expr:",
+           "        for forbidden in forbidden_strings:\n            if forbidden.replace(' ', '') in expression.replace(' ', ''):"),
+    Benign('permitted-set-operators', MH, "        permitted_functions = set(always_allowed).union(\n            set(default_funcs)\n            ).difference(set(blacklist))",
+           "        permitted_functions = (set(default_funcs) - set(blacklist)) | set(always_allowed)"),
+    Benign('not-whitelist', MH, "    if whitelist == []:\n        permitted_functions", "    if not whitelist:\n        permitted_functions"),
+    Benign('log-before-student-eval', FG, "            for key in var_blacklist:\n                del varlist[key]\n\n            student_eval, meta",
+           "            for key in var_blacklist:\n                del varlist[key]\n            self.log('scrubbed')\n\n            student_eval, meta"),
+    Benign('blacklist-comprehension', IG, "        var_blacklist = []\n        for var in self.config['instructor_vars']:\n            if var in var_samples[0]:\n                var_blacklist.append(var)\n\n        for i in range(self.config['samples']):\n            # Update the functions and variables listings with this sample\n            funclist.update(func_samples[i])\n            varlist.update(var_samples[i])\n\n            # Evaluate sums.",
+           "        var_blacklist = [var for var in self.config['instructor_vars'] if var in var_samples[0]]\n\n        for i in range(self.config['samples']):\n            # Update the functions and variables listings with this sample\n            funclist.update(func_samples[i])\n            varlist.update(var_samples[i])\n\n            # Evaluate sums."),
+    Benign('check-scope-keywords', EXPR, "        self.check_scope(variables, functions, suffixes)\n\n        # metadata_dict",
+           "        self.check_scope(functions=functions, variables=variables, suffixes=suffixes)\n\n        # metadata_dict"),
+]
